@@ -163,6 +163,11 @@ class ExprMixin:
             return v
         if v is None:
             return 'None'
+        if isinstance(v, Opaque) and v.kind == 'str':
+            return v
+        if isinstance(v, Opaque) and v.kind == 'exception':
+            f = z3.Function('str_of', U, U)
+            return Opaque(f(v.term), kind='str', label=f'str({v.label})')
         # anything else: formatting of an object into a message -- content irrelevant
         return Opaque(fresh_name('fmt'), kind='str')
 
